@@ -55,8 +55,13 @@ def gen_panel_case(rng, models=('Plate', 'PlateW', 'CPanel', 'KPanel'), max_mn=4
     if y12 if y12 is not None else rng.random() < 0.4:
         y1 = rng.uniform(0, 0.6) * b
         case['y1'], case['y2'] = y1, rng.uniform(y1 + 0.05 * b, b)
-        if rng.random() < 0.2:
+        r_ = rng.random()
+        if r_ < 0.15:
             case['y1'], case['y2'] = 0., b
+        elif r_ < 0.4:
+            case['y1'], case['y2'] = 0., rng.uniform(0.15, 0.9) * b          # strip starting exactly at the edge y = 0
+        elif r_ < 0.55:
+            case['y1'], case['y2'] = rng.uniform(0.1, 0.8) * b, b            # strip ending exactly at the edge y = b
     mode = rng.random()
     for f in 'uvw':
         for e in ('1t', '1r', '2t', '2r'):
